@@ -1,0 +1,154 @@
+//go:build verif
+
+package nject
+
+// Verification hooks.  Compiled only with the build tag "verif"; verif_off.go has the no-op
+// counterparts.  Nothing here changes behaviour: the observer is told what doBind decided and
+// the yield points let a test scheduler perturb interleavings.
+
+import (
+	"reflect"
+	"sort"
+	"sync"
+	"sync/atomic"
+)
+
+// VerifProviderInfo is a snapshot of one entry of doBind's working list.
+type VerifProviderInfo struct {
+	ID                int32
+	Origin            string
+	Index             int
+	Class             int
+	Group             int
+	Include           bool
+	CannotInclude     bool
+	Required          bool
+	Desired           bool
+	Shun              bool
+	Reorder           bool
+	Wanted            bool
+	Memoized          bool
+	Synthetic         bool
+	Cluster           int32
+	Flows             [5][]int
+	DownRmap          [][2]int
+	UpRmap            [][2]int
+	BypassRmap        [][2]int
+	MustZeroRemainder []int
+	MustZeroInner     []int
+}
+
+// VerifBindInfo is what doBind planned, reported just before closures are generated.
+type VerifBindInfo struct {
+	Real        bool
+	InvokeIndex int
+	Funcs       []VerifProviderInfo
+	DownSlots   [][2]int
+	UpSlots     [][2]int
+}
+
+var (
+	verifMu       sync.Mutex
+	verifObserver func(VerifBindInfo)
+	verifYielder  atomic.Value // func(string)
+)
+
+// VerifSetBindObserver installs (or with nil removes) the bind observer.
+func VerifSetBindObserver(f func(VerifBindInfo)) {
+	verifMu.Lock()
+	verifObserver = f
+	verifMu.Unlock()
+}
+
+// VerifSetYield installs a function called at the yield points.
+func VerifSetYield(f func(point string)) {
+	verifYielder.Store(f)
+}
+
+// VerifTypeCode exposes nject's internal numbering of types.
+func VerifTypeCode(t reflect.Type) int { return int(getTypeCode(t)) }
+
+// VerifNoTypeCode is the placeholder code used for a wrapper's inner-function parameter.
+func VerifNoTypeCode() int { return int(noTypeCode) }
+
+// VerifIDs returns the internal provider ids behind a provider or collection.
+func VerifIDs(x any) []int32 {
+	var ids []int32
+	switch v := x.(type) {
+	case *provider:
+		if v != nil {
+			ids = append(ids, v.id)
+		}
+	case *Collection:
+		if v != nil {
+			for _, fm := range v.contents {
+				ids = append(ids, fm.id)
+			}
+		}
+	case Collection:
+		for _, fm := range v.contents {
+			ids = append(ids, fm.id)
+		}
+	}
+	return ids
+}
+
+func verifPairs(m map[typeCode]typeCode) [][2]int {
+	out := make([][2]int, 0, len(m))
+	for k, v := range m {
+		out = append(out, [2]int{int(k), int(v)})
+	}
+	sort.Slice(out, func(i, j int) bool { return out[i][0] < out[j][0] })
+	return out
+}
+
+func verifSlots(m map[typeCode]int) [][2]int {
+	out := make([][2]int, 0, len(m))
+	for k, v := range m {
+		out = append(out, [2]int{int(k), v})
+	}
+	sort.Slice(out, func(i, j int) bool { return out[i][0] < out[j][0] })
+	return out
+}
+
+func verifCodes(l []typeCode) []int {
+	out := make([]int, len(l))
+	for i, tc := range l {
+		out[i] = int(tc)
+	}
+	return out
+}
+
+func verifObserveBind(isReal bool, funcs []*provider, invokeIndex int, downVmap map[typeCode]int, upVmap map[typeCode]int) {
+	verifMu.Lock()
+	f := verifObserver
+	verifMu.Unlock()
+	if f == nil {
+		return
+	}
+	info := VerifBindInfo{Real: isReal, InvokeIndex: invokeIndex, DownSlots: verifSlots(downVmap), UpSlots: verifSlots(upVmap)}
+	for _, fm := range funcs {
+		p := VerifProviderInfo{
+			ID: fm.id, Origin: fm.origin, Index: fm.index, Class: int(fm.class), Group: int(fm.group),
+			Include: fm.include, CannotInclude: fm.cannotInclude != nil, Required: fm.required,
+			Desired: fm.desired, Shun: fm.shun, Reorder: fm.reorder, Wanted: fm.wanted,
+			Memoized: fm.memoized, Synthetic: fm.isSynthetic, Cluster: fm.cluster,
+			DownRmap: verifPairs(fm.downRmap), UpRmap: verifPairs(fm.upRmap), BypassRmap: verifPairs(fm.bypassRmap),
+		}
+		for i := range fm.flows {
+			p.Flows[i] = verifCodes(fm.flows[i])
+		}
+		p.MustZeroRemainder = verifCodes(fm.mustZeroIfRemainderSkipped)
+		sort.Ints(p.MustZeroRemainder)
+		p.MustZeroInner = verifCodes(fm.mustZeroIfInnerNotCalled)
+		sort.Ints(p.MustZeroInner)
+		info.Funcs = append(info.Funcs, p)
+	}
+	f(info)
+}
+
+func verifYield(point string) {
+	if f, ok := verifYielder.Load().(func(string)); ok && f != nil {
+		f(point)
+	}
+}
